@@ -517,8 +517,8 @@ def arm_pool(tier):
     return sel
 
 
-HIST_TYPES = ["int", "number", "list", "str", "anything", "satisfying(even)", "P"]
-HIST_VALS = ["i0", "i5", "i6", "f15", "sx", "l12", "null", "p12"]
+HIST_TYPES = ["int", "number", "list", "str", "anything", "satisfying(even)", "P", "stream", "vector", "dict", "bytes"]
+HIST_VALS = ["i0", "i5", "i6", "f15", "sx", "l12", "null", "p12", "st2", "v12", "d1", "b12"]
 
 
 def hist_stmts():
@@ -529,7 +529,8 @@ def hist_stmts():
         out.append(("x, y = %s, %s" % (VAL[v][1], "0")))
         out.append(("y = %s; swap x, y" % VAL[v][1]))
         out.append(("x[0] = %s" % VAL[v][1]))
-    out += ["x += 1", "x += 1.5", "x append= 1", 'x $= "s"', "x *= 2", "x .= str", "x[0] += 1.5", "x[0] append= 1", "x max= 7", "x = x", "x //= 2",
+    out += ["x[0], x[1] = 7, 8", "swap x[0], x[1]", "every x[0:2] = 9", "x[1] = [1]", 'x[0] = "s"', "x[0] = 1.5", "x[1] += 1",
+            "x += 1", "x += 1.5", "x append= 1", 'x $= "s"', "x *= 2", "x .= str", "x[0] += 1.5", "x[0] append= 1", "x max= 7", "x = x", "x //= 2",
             "x ++= [1]", "x /= 2"]
     return out
 
